@@ -2,6 +2,12 @@ from typing import Dict, Any, List
 from . import LinearIR, Errors
 import math
 import copy
+import os
+
+# Verification hook (see /verif/DESIGN.md): inert unless NSL_VERIF=1 *and* an
+# observer object has been installed by the verification harness.
+_VERIF = os.environ.get("NSL_VERIF") == "1"
+_VERIF_OBSERVER = None
 
 
 class ExecutionContext:
@@ -92,9 +98,25 @@ class ExecutionContext:
         currentInstruction = 0
         lastInstruction = len(instructions)
 
+        if _VERIF and _VERIF_OBSERVER is not None:
+            _VERIF_OBSERVER.enter(
+                self, function, args, localScope, self.__globalScope
+            )
+
         while currentInstruction < lastInstruction:
             instruction = instructions[currentInstruction]
             currentInstruction += 1
+
+            if _VERIF and _VERIF_OBSERVER is not None:
+                _VERIF_OBSERVER.step(
+                    self,
+                    function,
+                    currentInstruction - 1,
+                    instruction,
+                    args,
+                    localScope,
+                    self.__globalScope,
+                )
 
             opCode = instruction.OpCode
 
@@ -263,8 +285,20 @@ class ExecutionContext:
                         ]
                 case LinearIR.OpCode.RETURN:
                     if instruction.Value:
+                        if _VERIF and _VERIF_OBSERVER is not None:
+                            _VERIF_OBSERVER.exit(
+                                self,
+                                function,
+                                args,
+                                localScope,
+                                localScope.get(instruction.Value.Reference),
+                            )
                         return localScope[instruction.Value.Reference]
                     else:
+                        if _VERIF and _VERIF_OBSERVER is not None:
+                            _VERIF_OBSERVER.exit(
+                                self, function, args, localScope, None
+                            )
                         return None
                 case LinearIR.OpCode.CALL:
                     args = [
@@ -338,6 +372,9 @@ class ExecutionContext:
                     localScope[ref] = result
                 case _:
                     raise Exception(f"Unhandled opcode: {opCode}")
+
+        if _VERIF and _VERIF_OBSERVER is not None:
+            _VERIF_OBSERVER.exit(self, function, args, localScope, None)
 
 
 class VirtualMachine:
